@@ -167,6 +167,7 @@ let parse_os (toks : string list) : oscase =
     else if String.length t >= 3 && (String.sub t 0 3 = "bo=" || String.sub t 0 3 = "nf=" || String.sub t 0 3 = "dm="
                                      || String.sub t 0 3 = "fs=" || String.sub t 0 3 = "tg=") then ()
     else if String.length t >= 4 && String.sub t 0 4 = "fmt=" then ()
+    else if String.length t >= 5 && String.sub t 0 5 = "hist=" then ()
     else if String.length t >= 5 && String.sub t 0 5 = "arch=" then ()
     else if String.length t >= 6 && String.sub t 0 6 = "pbits=" then ()
     else if String.length t > 2 && t.[1] = ':' && (t.[0] = 'Z' || t.[0] = 'O') then ()
